@@ -42,6 +42,16 @@ inductive LAct
   | raise | hang | ret | awaitInCleanup
   deriving Repr, DecidableEq
 
+/-- the `send` actions as ASGI message types.  The action depends on the `type` of the message only: every other key of a
+    lifespan send message (`message`) is optional in the ASGI specification and plays no role in what the server does
+    (tied to `Lifespan.asgi_send` of both workers by `HC.Props.C14.asgi_send_dispatch`). -/
+def LAct.sendTypes : List (String × LAct) :=
+  [("lifespan.startup.complete", .sendStartupComplete), ("lifespan.shutdown.complete", .sendShutdownComplete),
+   ("lifespan.startup.failed", .sendStartupFailed), ("lifespan.shutdown.failed", .sendShutdownFailed)]
+
+/-- the action a sent message of type `t` is (`sendUnknown`: any other type) -/
+def LAct.ofSendType (t : String) : LAct := (LAct.sendTypes.lookup t).getD .sendUnknown
+
 /-- an exception travelling through the application -/
 inductive AppExc | failure (st : Stage) | other
   deriving Repr, DecidableEq
